@@ -9,7 +9,7 @@
     the end of an orphan chain: refuted with the witness of known finding
     C07:orphan-chain-invalid-tail-blocks-reorg. *)
 From Coq Require Import NArith List Bool.
-From Verif Require Import ChainDB.Model ChainDB.Inv ChainDB.Reorg ChainDB.AddBlock ChainDB.Fork ChainDB.Trace ChainDB.Longest ChainDB.RefuteFork.
+From Verif Require Import ChainDB.Model ChainDB.Inv ChainDB.Reorg ChainDB.AddBlock ChainDB.Fork ChainDB.Trace ChainDB.Longest ChainDB.RefuteFork ChainDB.Wal.
 Import ListNotations.
 Open Scope N_scope.
 
@@ -185,3 +185,29 @@ Theorem C07_longest_step :
   Struct g (fst (add_block apply true f27 orphan_cap n b)) /\ Longest apply (fst (add_block apply true f27 orphan_cap n b)).
 Proof. intros; eapply longest_step; eauto. Qed.
 Print Assumptions C07_longest_step.
+
+(** ** The node follows the winning branch when it grows
+    After a successful switch (C07_reorg_switches) the invariant holds on the new tip, so its
+    in-memory system parameters are those of the tip's state and the next valid block of the
+    branch is accepted. *)
+Theorem C07_winner_followed :
+  forall (apply : sroot -> block -> option sroot) (spent : sroot -> txid -> bool),
+  (forall r b r', apply r b = Some r' -> NoDup (txs b) /\ forall t, In t (txs b) -> spent r t = false) ->
+  (forall r b r' t, apply r b = Some r' -> spent r' t = spent r t || mem t (txs b)) ->
+  forall (U : block -> Prop), (forall a b, U a -> U b -> hash_field a = hash_field b -> a = b) ->
+  forall (g : block),
+  forall (f7 f27 : bool) (orphan_cap : nat) n top b,
+  Inv apply spent U g n -> best n = top ->
+  U b -> prev b = hash_field top -> no b = no top + 1 -> apply (root top) b = Some (root b) ->
+  mem (hash_field b) (bad n) = false -> get_block (dur n) (hash_field b) = None ->
+  find_orphan (orphans n) (hash_field b) = None ->
+  pmem n = root top /\
+  exists n', add_block apply f7 f27 orphan_cap n b = (n', ROk) /\ best n' = b /\ sdb_root n' = root b /\
+             Inv apply spent U g n'.
+Proof.
+  intros apply spent Hf Hs U Hi g f7 f27 cap n top b I <- Ub Hp Hn Ha Hb Hg Ho. split.
+  - eapply params_coherent; eauto.
+  - destruct (next_block_accepted apply f7 f27 cap spent Hf Hs U Hi g n b I Ub Hp Hn Ha Hb Hg Ho)
+      as (n' & A & B & C & _ & D). eauto.
+Qed.
+Print Assumptions C07_winner_followed.
